@@ -9,7 +9,9 @@ LEVEL = "other"
 EXPLANATION = (
     "Decides: (R1) no panic-capable site in the refusal logic (cmd::run, cmd_push, read_series_file and their closures) is left "
     "undischarged — in particular both slices of the series (first_patch..last_patch and 0..applied_patches) are proven in range, "
-    "using the drivers' post-condition applied_patches <= len (derived for the sequential driver, AX8 for the parallel one); (R2) every "
+    "using the drivers' post-condition applied_patches <= len (derived for the sequential driver, AX8 for the parallel one); (R1b) on every "
+    "path through the UpTo arm of the goal match the range first_patch..last_patch is provably non-empty where the series is sliced, i.e. "
+    "a goal naming an already applied patch cannot get that far; (R2) every "
     "refusal (explicit Err return built in cmd_push) is unreachable from any call that can write the file system, and the two reads of "
     "series / applied-patches have no write effect; (R3) a patch file that cannot be loaded or parsed cannot leave earlier patches "
     "half-saved: in the sequential driver nothing that writes is followed by another loop iteration, in the parallel driver both worker "
@@ -50,6 +52,35 @@ def run(ck):
     ck.floor("C17-R1", "panic-capable sites in the refusal logic", n, 3)
     for ax, fid in getattr(an, "assumed", []):
         ck.info("C17-R1", "assumed summary %s for %s" % (ax, fid), panics.AXIOMS[ax])
+
+    # ---- R1b: a goal naming an already applied patch never reaches the slice ------------------------------------------
+    # Engine D restricted to the paths through the UpTo arm of `match goal`: where series_patches[first..last] is taken, the
+    # range is provably non-empty.  With last = index + 1 (C09-R2) that is exactly index >= first: an applied goal was refused.
+    sws = pt.discr_switches(cmd_push, lambda e, rv: (rv.get("adt") or "").endswith("PushGoal"))
+    if ck.require(bool(sws) and all("UpTo" in sw["edges"] for sw in sws), "C17-R1b", "cmd_push matches on the goal",
+                  "no match on PushGoal with an UpTo arm in cmd_push", cmd_push.where()):
+        blocked = set()
+        for sw in sws:
+            for name, e in sw["edges"].items():
+                if name != "UpTo":
+                    blocked.add(e)
+            if sw["otherwise"] != sw["edges"]["UpTo"]:
+                blocked.add(sw["otherwise"])
+        _, _, obl2 = an.analyze(cmd_push, blocked_edges=blocked)
+        sl = [o for o in obl2 if o.kind == "index" and o.what.startswith("index Range<") and "SeriesPatch" in (o.term["argtys"][0] or "") and
+              getattr(o, "start_const", None) is None]     # series[0..applied] (what gets recorded) is a different slice
+        if ck.require(len(sl) == 1, "C17-R1b", "one first..last slice of the series in cmd_push", "%d Range slices of the series found" % len(sl),
+                      cmd_push.where()):
+            o = sl[0]
+            inst = "goal already applied is refused before series_patches[first..last]"
+            if not o.reached:
+                ck.violate("C17-R1b", inst, "on the paths through the UpTo arm the slice is not reached at all (rule would be vacuous)", cmd_push.where(o.term))
+            elif o.nonempty:
+                ck.ok("C17-R1b", inst, "on every path through the UpTo arm: first_patch + 1 <= last_patch at the slice (%s)" % o.relation,
+                      cmd_push.where(o.term))
+            else:
+                ck.violate("C17-R1b", inst, "on a path through the UpTo arm the range can be empty or reversed (%s): a goal that names an already "
+                           "applied patch is not refused" % o.relation, cmd_push.where(o.term))
 
     # ---- R2 ------------------------------------------------------------------------------------------
     writers = cg.functions_with_effect(callgraph.fs_write_kind)
